@@ -233,7 +233,7 @@ func toStringDeep(v value) string {
 // ---- calling back into interpreted code ----------------------------------------
 
 // callMethod invokes a method by name on an interface value, if it has one.
-func callMethod(i *interpreter, fr *frame, recv iface, name string) (value, bool) {
+func callMethod(i *interpreter, fr *frame, recv iface, name string, args ...value) (value, bool) {
 	if recv.t == nil {
 		return nil, false
 	}
@@ -245,7 +245,7 @@ func callMethod(i *interpreter, fr *frame, recv iface, name string) (value, bool
 			if fn == nil {
 				return nil, false
 			}
-			return call(i, fr, token.NoPos, fn, []value{recv.v}), true
+			return call(i, fr, token.NoPos, fn, append([]value{recv.v}, args...)), true
 		}
 	}
 	return nil, false
